@@ -12,3 +12,10 @@ package os
 //@ props C12
 //@ requires ctx != nil
 //@ ensures[C12.mod.os.getos] hasos(ctx) ==> any(result) == ctxos(ctx)
+
+// C11: the top-level helpers this package contributes to the default globals are free-standing builtins: none is
+// owned by a module (its __module__ back-reference is nil), so no path leads from a top-level name to a module
+// object that the denylist and the overrides do not see.
+//@ func Builtins
+//@ props C11
+//@ ensures[C11.builtins.unowned] forallU(k, string, haskey(result, k) ==> typeof(result[k]) == *object.Builtin && ref(result[k]) != nil && result[k].(*object.Builtin).module == nil)
